@@ -59,6 +59,8 @@ func c19Scenario(c *choice.Ctx, rep *report.R, depth int) {
 	}
 	name := refdns.N("pf", "example", "test")
 	q := refdns.Query(0x1919, name, 1, 1)
+	// the second client of group g1 spells the same name with other letter case: same question, same entry, same refresh
+	qMixed := refdns.Query(0x1919, refdns.N("PF", "Example", "tESt"), 1, 1)
 	serial := byte(0)
 	ttlOf := map[byte]uint32{}
 	reply := func(uq *upQuery, ttl uint32) {
@@ -125,11 +127,16 @@ func c19Scenario(c *choice.Ctx, rep *report.R, depth int) {
 	}
 	for step := 0; step < depth; step++ {
 		var menu []event
+		hitOf := map[string]func(){}
 		for _, cl := range clients {
 			cl := cl
-			menu = append(menu, event{name: "hit(" + cl.name + ")", do: func() {
+			hit := func() {
 				before := len(cl.sc.Responses())
-				cl.sc.SendMsg(q)
+				if cl.name == "g1b" {
+					cl.sc.SendMsg(qMixed)
+				} else {
+					cl.sc.SendMsg(q)
+				}
 				wait()
 				rs := cl.sc.Responses()
 				st := gs[cl.group]
@@ -176,7 +183,9 @@ func c19Scenario(c *choice.Ctx, rep *report.R, depth int) {
 						fail("ttl-after-refresh", fmt.Sprintf("hit shows ttl %d, expected about %d (entry ttl %d, age %ds)", r.An[0].TTL, max, st.ttl, age))
 					}
 				}
-			}})
+			}
+			hitOf[cl.name] = hit
+			menu = append(menu, event{name: "hit(" + cl.name + ")", do: hit})
 		}
 		for _, p := range u.Pending() {
 			p := p
@@ -199,6 +208,14 @@ func c19Scenario(c *choice.Ctx, rep *report.R, depth int) {
 				gs[g].refreshes++
 			}})
 			menu = append(menu, event{name: fmt.Sprintf("refresh-error(%s)", g), fault: true, do: func() { p.Fail(); gs[g].refreshes++ }})
+			// ... and the next hit of that group arrives in the same instant (it starts the next refresh right away)
+			first := map[string]string{"g1": "g1a", "g2": "g2"}[g]
+			menu = append(menu, event{name: fmt.Sprintf("refresh-error(%s)+hit(%s)", g, first), fault: true, do: func() {
+				p.Fail()
+				gs[g].refreshes++
+				wait()
+				hitOf[first]()
+			}})
 			menu = append(menu, event{name: fmt.Sprintf("refresh-refused(%s)", g), fault: true, do: func() {
 				p.Reply(env.RCodeReply(p.Msg, 5).Encode(false))
 				gs[g].refreshes++
@@ -209,9 +226,7 @@ func c19Scenario(c *choice.Ctx, rep *report.R, depth int) {
 			}})
 		}
 		menu = append(menu, event{name: "advance1s", do: func() { hsleep(time.Second) }})
-		if ttl0 == 40 {
-			menu = append(menu, event{name: "advance5.5s", do: func() { hsleep(5500 * time.Millisecond) }})
-		}
+		menu = append(menu, event{name: "advance5.5s", do: func() { hsleep(5500 * time.Millisecond) }})
 		ev := pickEvent(c, menu)
 		if ev == nil {
 			break
@@ -324,7 +339,7 @@ func TestVerifC19(t *testing.T) {
 	depth := report.ParamInt("DEPTH", 6)
 	bound := report.ParamInt("FAULTS", 2)
 	rep.Rule = fmt.Sprintf("E3: real router + otter cache + ip marker (2 groups) + ECS, scripted upstream, exact virtual clock; entries for both groups stored with ttl 20 / 40, clock advanced to 15.5 s / 30.9 s (last quarter); then all sequences of length <=%d over "+
-		"{hit from client g1a / g1b (same group) / g2, refresh answered with ttl 40, refresh answered with ttl 3 (shorter than the old entry's remaining lifetime), refresh answered SERVFAIL / REFUSED / NOTIMP, refresh fails, advance 1 s, advance 5.5 s (ttl 40 only: close to the refresh's own 6 s deadline)} with <=%d failed refreshes; oracle after every event: a hit on an entry with >1 s to live is answered in the same reaction, "+
+		"{hit from client g1a / g1b (same group) / g2, refresh answered with ttl 40, refresh answered with ttl 3 (shorter than the old entry's remaining lifetime), refresh answered SERVFAIL / REFUSED / NOTIMP, refresh fails, refresh fails and the group's next hit arrives in the same instant, advance 1 s, advance 5.5 s (close to the refresh's own 6 s deadline / past the old entry's expiry)}; the second client of group g1 spells the name in other letter case with <=%d failed refreshes; oracle after every event: a hit on an entry with >1 s to live is answered in the same reaction, "+
 		"never two refresh queries in flight per (question, group), hits show the renewed entry after a successful refresh and the old one after a failed refresh, ttl consistent with the entry's age", depth, bound, report.ParamInt("MANYKEYS", 100))
 	bubble(t, func() {
 		st := runExplore(t, rep, bound, func(c *choice.Ctx) { c19Scenario(c, rep, depth) })
